@@ -7,6 +7,7 @@ import MoSql.Lex
 import MoSql.Window
 import MoSql.Skip
 import MoSql.Dml
+import MoSql.Peg
 /-
 Line-protocol driver: one JSON request per line on stdin, one JSON answer per line on stdout.
 Imports the model files and Lean's JSON library only (no Mathlib), so it is also built as the
@@ -381,6 +382,70 @@ def handleInsert (req : Json) : Except String String := do
     | .query _ _ => "query"
   pure ("{\"shape\":\"" ++ shape ++ "\"}")
 
+
+/-! ### the recogniser engine (`MoSql.Peg`) on small grammars -/
+def chars (j : Json) : Except String (List Char) :=
+  match j with
+  | .str s => pure s.toList
+  | _ => err "string expected"
+
+def ranges (j : Json) : Except String (List (Char × Char)) :=
+  match j with
+  | .str s => pure (s.toList.map fun c => (c, c))
+  | _ => err "character set expected"
+
+partial def toG : Json → Except String Peg.G
+  | .arr #[.str "lit", s, .bool cl] => do pure (.term (.lit (← chars s) cl))
+  | .arr #[.str "kw", s, .bool cl] => do pure (.term (.kw (← chars s) cl))
+  | .arr #[.str "word", a, b] => do pure (.term (.word (← ranges a) (← ranges b)))
+  | .arr #[.str "quoted", .str q] =>
+    match q.toList with
+    | [c] => pure (.term (.quoted c))
+    | _ => err "one quote character expected"
+  | .arr #[.str "empty"] => pure .empty
+  | .arr #[.str "seq", .num ws, .arr gs] => do pure (.seq ws.mantissa.toNat (← gs.toList.mapM toG))
+  | .arr #[.str "alt", .arr gs] => do pure (.alt (← gs.toList.mapM toG))
+  | .arr #[.str "longest", .arr gs] => do pure (.longest (← gs.toList.mapM toG))
+  | .arr #[.str "many", .num ws, g, .num mn, .num mx] => do pure (.many ws.mantissa.toNat (← toG g) mn.mantissa.toNat mx.mantissa.toNat)
+  | .arr #[.str "opt", g] => do pure (.opt (← toG g))
+  | .arr #[.str "group", g] => do pure (.group (← toG g))
+  | .arr #[.str "suppress", g] => do pure (.suppress (← toG g))
+  | .arr #[.str "ref", .num n] => pure (.ref n.mantissa.toNat)
+  | .arr #[.str "not", g] => do pure (.notAhead (← toG g))
+  | .arr #[.str "ahead", g] => do pure (.ahead (← toG g))
+  | j => err ("bad grammar node " ++ j.compress)
+
+partial def tokJ : Peg.Tok → String
+  | .leaf s => jstr (String.ofList s)
+  | .group ts => "[" ++ ",".intercalate (ts.map tokJ) ++ "]"
+
+def pegSkip (ws : Nat) (x : List Char) : List Char :=
+  match ws with
+  | 0 => x
+  | 1 => x.dropWhile Skip.isWhite
+  | _ => Skip.skip x
+
+def handlePeg (req : Json) : Except String String := do
+  let rulesJ ← req.getObjVal? "rules"
+  let rules ← match rulesJ with
+    | .arr rs => rs.toList.mapM toG
+    | _ => err "rules must be a list"
+  let start ← toG (← req.getObjVal? "start")
+  let topWs ← req.getObjValAs? Nat "top_ws"
+  let fuel ← req.getObjValAs? Nat "fuel"
+  let parseAll := match req.getObjValAs? Bool "parse_all" with | .ok b => b | _ => false
+  let inputsJ ← req.getObjVal? "inputs"
+  let inputs ← match inputsJ with
+    | .arr xs => xs.toList.mapM chars
+    | _ => err "inputs must be a list"
+  let E : Peg.Env := { skip := pegSkip, rule := fun i => rules.getD i .empty }
+  let outs := inputs.map fun x =>
+    match Peg.parseTop E fuel topWs start parseAll x with
+    | .fail => "[\"fail\"]"
+    | .diverge => "[\"diverge\"]"
+    | .ok ts r => "[\"ok\",[" ++ ",".intercalate (ts.map tokJ) ++ "]," ++ toString (x.length - r.length) ++ "]"
+  pure ("{\"model\":[" ++ ",".intercalate outs ++ "]}")
+
 def handle (line : String) : String :=
   match Json.parse line with
   | .error e => "{\"error\":" ++ jstr ("json: " ++ e) ++ "}"
@@ -398,6 +463,7 @@ def handle (line : String) : String :=
       | .ok "frame" => handleFrame req
       | .ok "skip" => handleSkip req
       | .ok "insert" => handleInsert req
+      | .ok "peg" => handlePeg req
       | .ok "fmtTable" => pure handleFmtTable
       | .ok "ping" => pure "{\"pong\":true}"
       | .ok o => err ("unknown op " ++ o)
